@@ -24,6 +24,9 @@ macro_rules! dispatch {
             "C11" => $f::<c11::C11>($($arg),*),
             "C12" => $f::<c12::C12>($($arg),*),
             "C13" => $f::<c13::C13>($($arg),*),
+            "C14" => $f::<c14::C14>($($arg),*),
+            "C15" => $f::<c15::C15>($($arg),*),
+            "C19" => $f::<c19::C19>($($arg),*),
             other => {
                 eprintln!("unknown property {other}");
                 2
